@@ -17,6 +17,7 @@ PC = os.path.join(vlib.SPECS, "ProtoCore")
 
 
 def run(chk):
+    prod_common.background(prod_common.run_otdev, chk)     # altered wire messages of the same three protocols
     prod_common.background(prod_common.run_otvole, chk)    # VSOT, SoftSpoken, rvole/softspoken on k256 / P-256 (family ProdProto)
     obin = vlib.build("otvole")
     tbin = vlib.build("tamper")
